@@ -112,6 +112,14 @@ class RegistryWorld(object):
                 if len(D[n][3]) < 1 or (m == n or n in self.reach(m)):
                     if m not in D[n][3]:
                         ops.append(("dep", n, m))
+        # several dependencies at once where a LATER entry closes a cycle: the whole call must be rejected, nothing applied
+        for n in names:
+            if D[n][0] != "F" or D[n][3]:
+                continue
+            legal = [m for m in names if m != n and n not in self.reach(m) and m not in self.kids(n)]
+            cyc = [m for m in names if m == n or n in self.reach(m)]
+            if legal and cyc:
+                ops.append(("depm", n, (legal[0], cyc[-1])))
         ops.append(("read_all",))
         for n in names:
             if D[n][0] in ("F", "A"):
@@ -150,6 +158,7 @@ class RegistryWorld(object):
         elif k == "dep":
             _, n, m = op
             cyclic = m == n or n in self.reach(m)
+            _before = self._graph_fp() if cyclic else None
             try:
                 N.add_dependency(n, depends_on=m)
                 raised = None
@@ -164,11 +173,33 @@ class RegistryWorld(object):
                 res.facts["dep:cyclic" if cyclic else "dep:acyclic"] += 1
                 if cyclic and raised != "ValueError":
                     viol.append(("reject:%s->%s" % (n, m), "ValueError", raised, "not-rejected"))
+                elif cyclic and self._graph_fp() != _before:
+                    viol.append(("graph-after-rejected:%s->%s" % (n, m), "unchanged", "changed", "state-changed"))
                 if not cyclic and raised is not None:
                     viol.append(("accept:%s->%s" % (n, m), None, raised, "exception:" + raised))
             if not cyclic:
                 d = D[n]
                 D[n] = ("F", d[1], d[2], d[3] + [m])
+        elif k == "depm":
+            _, n, ms = op
+            _before = self._graph_fp()
+            try:
+                N.add_dependency(n, depends_on=list(ms))
+                raised = None
+            except ValueError:
+                raised = "ValueError"
+            except RecursionError:
+                raised = "RecursionError"
+            if res is not None:
+                res.evaluations += 1
+                res.observe((op, raised))
+                res.outcomes[("depm", "cyclic-later-entry", str(raised))] += 1
+                res.facts["dep:cyclic"] += 1
+                if raised != "ValueError":
+                    viol.append(("reject:%s->%s" % (n, ",".join(ms)), "ValueError", raised, "not-rejected"))
+                elif self._graph_fp() != _before:
+                    viol.append(("graph-after-rejected:%s->%s" % (n, ",".join(ms)), "unchanged", "changed", "state-changed"))
+            # reference: nothing applied
         elif k in ("read_all", "read"):
             names = [n for n in D] if k == "read_all" else [op[1]]
             exp = {}
@@ -208,6 +239,11 @@ class RegistryWorld(object):
         else:
             raise ValueError(op)
         return viol
+
+    def _graph_fp(self):
+        roots = {n: self.nexus.get(n) for n in self.defs}
+        roots["__root__"] = self.nexus.get("__root__")
+        return fingerprint(roots)
 
     def key(self):
         roots = {n: self.nexus.get(n) for n in self.defs}
